@@ -8,7 +8,7 @@
 (*   or        or / OR / |OR|          not    not / NOT / !                *)
 (*   assign    = / :=                  quotes double / single              *)
 (*   index     [n] / .n                this   explicit leading `this.`     *)
-(*   indent    2 / 4 / 1               comments  # comments between and    *)
+(*   indent    2 / 4 / 1 (tab: tabs)   comments  # comments between and    *)
 (*   blanks    blank lines, trailing spaces       after clauses            *)
 (*   breaks    line breaks inside lists, filters and or-lines              *)
 (*   tq        type block written as Resources.*[ Type == 'X' ] { .. }     *)
@@ -22,10 +22,10 @@
 EXTENDS Integers, Sequences, FiniteSets, TLC, Json
 
 Canon == [upper |-> FALSE, or |-> 0, not |-> 0, assign |-> FALSE, single |-> FALSE, dot |-> FALSE,
-          this |-> FALSE, indent |-> 2, comments |-> FALSE, blanks |-> FALSE, breaks |-> FALSE, tq |-> FALSE]
+          this |-> FALSE, indent |-> 2, tab |-> FALSE, comments |-> FALSE, blanks |-> FALSE, breaks |-> FALSE, tq |-> FALSE]
 
 Space == [upper : BOOLEAN, or : 0 .. 2, not : 0 .. 2, assign : BOOLEAN, single : BOOLEAN, dot : BOOLEAN,
-          this : BOOLEAN, indent : {1, 2, 4}, comments : BOOLEAN, blanks : BOOLEAN, breaks : BOOLEAN, tq : BOOLEAN]
+          this : BOOLEAN, indent : {1, 2, 4}, tab : BOOLEAN, comments : BOOLEAN, blanks : BOOLEAN, breaks : BOOLEAN, tq : BOOLEAN]
 
 Classes == DOMAIN Canon
 Differs(s) == {c \in Classes : s[c] # Canon[c]}
